@@ -538,8 +538,23 @@ func runTxSubChild(rounds int) (ok bool, out string) {
 
 // ---------------------------------------------------------------------------
 
+const header = `From Coq Require Import String.
+From V Require Import Lib.Base C15.Model C15.Gen C15.Inst.
+Open Scope string_scope.`
+
+var protoFile = map[string]string{
+	"localstatequery": "protocol/localstatequery/client.go", "localtxmonitor": "protocol/localtxmonitor/client.go",
+	"localtxsubmission": "protocol/localtxsubmission/client.go", "chainsync-ntc": "protocol/chainsync/client.go",
+	"chainsync-ntn": "protocol/chainsync/client.go", "blockfetch": "protocol/blockfetch/client.go", "peersharing": "protocol/peersharing/client.go",
+}
+
 func run(c *vh.Ctx) error {
 	keepalive.NewConfig() // keep the import for NtN connections' defaults
+	cf := c.NewCaseFile("scen", header)
+	defer cf.Flush()
+	addCase := func(file, fn string, hung bool, replay any) {
+		cf.Add(fmt.Sprintf("{| k_file := %s; k_func := %s; k_hung := %s |}", vh.Str(file), vh.Str(fn), vh.Bool(hung)), replay)
+	}
 	type sc struct {
 		Call, Script string
 	}
@@ -592,6 +607,7 @@ func run(c *vh.Ctx) error {
 			if !r.ErrClosed {
 				c.Res.Violate("monitor", "c15:errorchan-not-closed:"+canon, "ErrorChan not closed 5 s after Close", t)
 			}
+			addCase("protocol/localmessagenotification/server.go", "(*Server).WaitForMessage", len(r.Leaked) > 0, t)
 			if len(r.Leaked) > 0 {
 				c.Res.Violate("monitor", "c15:leak:(*Server).WaitForMessage:s.newMessageSignal:disconnect-after-blocking-request",
 					fmt.Sprintf("%d goroutines survive Close: %s", len(r.Leaked), strings.Join(r.Leaked, " || ")), t)
@@ -611,6 +627,8 @@ func run(c *vh.Ctx) error {
 		if len(c.Res.Samples) < 6 {
 			c.Res.Sample(map[string]any{"scenario": canon, "returned": r.Returned, "error": r.CallErr, "close_returned": r.CloseRet, "errorchan_closed": r.ErrClosed, "leaked": len(r.Leaked)})
 		}
+		addCase(protoFile[strings.SplitN(t.Call, ".", 2)[0]], a.Func, !r.Returned, t)
+		c.Res.TracesValidated++
 		if !r.Returned {
 			c.Res.Violate("monitor", "c15:hang:"+a.Func+":"+t.Call+":"+t.Script,
 				fmt.Sprintf("%s has not returned %v after the peer script %q (and Close); blocked at: %s", t.Call, callBound, t.Script, r.BlockedAt), t)
